@@ -287,6 +287,14 @@ impl Lex {
                             10
                         }
                     );
+                    // a sign is only valid in front of the whole literal, not after a radix prefix
+                    let digits = self.tmp.trim_start_matches(|x| x == '-' || x == '+');
+                    if self.tmp.len() - digits.len() > (c == '-' || c == '+') as usize {
+                        return Err(Xerr::ParseError {
+                            msg: PARSE_INT_ERRMSG,
+                            substr,
+                        });
+                    }
                     let i =
                         Xint::from_str_radix(&self.tmp, radix).map_err(|_| Xerr::ParseError {
                             msg: PARSE_INT_ERRMSG,
